@@ -231,8 +231,10 @@ func c06Judge(c *evid.Ctx, h *hist.History, ctx map[string]any, label string) {
 				}
 			}
 			if !valueBad {
-				fmt.Println("HARNESS-ERROR C06: porcupine says illegal but the interval check found no value violation")
-				os.Exit(2)
+				// every read is individually explainable but no single order of the writer's
+				// linearization points explains them all (e.g. one reader saw a new entry and
+				// afterwards an older LastIndex)
+				c.Violation("C06:not-linearizable:"+label, "porcupine: the history has no linearization although each read alone matches some overlapping version (reads by one reader went back in time)", map[string]any{"context": ctx})
 			}
 		default:
 			c.Count("porcupine_unknown", 1)
